@@ -156,23 +156,42 @@
       (`tsigProcess_rows`), and the first half of "answered normally" holds — TC only over UDP and then
       without data (`signed_answer_facts_of_run`, `decoded_answer_tsig`).  `C10_row3_of_compare`:
       `C10_row3` follows from `C10_row3_compare`, the comparison with the plain response alone.
-      **`C10_row3_compare` — hence `C10_row3` and `C10_full` as stated — is false**, in two corner
-      families that are not server defects (the audit's clause is stronger than what any writer with a
-      reserved TSIG can do); under `plainComparable` the two runs start from the same scan state and
-      differ only in room (`available` smaller by the reserved TSIG length in the signed run):
-        · TCP, `answer-header-differs`: a *mandatory* record (answer RRset, NS, glue, negative SOA) that
+      Third recorded correction of the *oracle* (`Spec.ServerTsig.audit`): as first written, the clause
+      "answered normally" compared the signed answer with the plain one whenever neither is truncated.
+      That is stronger than what any writer with a reserved TSIG can do; under `plainComparable` the two
+      runs start from the same scan state and differ only in room (`available` smaller by the reserved
+      TSIG length R in the signed run).  Counter-examples (none a server defect):
+        · F1, TCP, `answer-header-differs`: a *mandatory* record (answer RRset, NS, glue, negative SOA) that
           fits 65535 octets only without the reserved TSIG gets `Truncation` in the signed run — over
           TCP the epilogue is `clear_rrs`, AA clear, SERVFAIL, TC not set — and is sent in the plain
           run: d.tc = pd.tc = false, d.rcode = 2 ≠ 0 = pd.rcode.  (Over UDP the same sets TC, which the
           clause allows.)  Needs an answer of size in (65535 − R, 65535], e.g. ~250 TXT records.
-        · `additional-differs`: optional additional-section calls (`execute_allowing_truncation`) are
+        · F2, `additional-differs`: optional additional-section calls (`execute_allowing_truncation`) are
           dropped one by one and the loop goes on.  MX / NS / SRV RRset with two in-zone targets, address
           RRsets of sizes B and b, room left x (signed) and x + R (plain) with x < B ≤ x + R and
           x + R − B < b ≤ x (x = 150, R = 80, B = 160, b = 96): signed drops the first and keeps the
           second, plain keeps the first and drops the second — neither truncated, same RCODE / AA /
           answer / authority, but the signed additional section is not a sub-multiset of the plain one.
-      The audit needs amending before `C10_full` can be a theorem (skip the comparison for SERVFAIL over
-      TCP without data; replace the sub-multiset clause by "own additional records are address records").
+        · F3, `answer-header-differs`: an optional address RRset whose later record has unrenderable
+          RDATA: the signed run runs out of room before reaching it (`Truncation`, optional ⇒ dropped,
+          NOERROR), the plain run reaches it (`InvalidRdata` ⇒ SERVFAIL).
+      The audit now makes the comparison only when, besides `plainComparable`, the plain response
+      leaves room for the TSIG RR — `pb.size + (uncompressed TSIG RR) ≤ limit` (excludes F1 and F2: in F1
+      the plain answer is within R of 65535, in F2 the plain run ends within R of the limit) — and not
+      when the plain response alone is SERVFAIL (F3).  Otherwise the clause is skipped; the TC clause and
+      all TSIG / MAC clauses still apply, and answers within R octets of the limit are audited by C04 /
+      C05's own oracles.  On the quick corpus (24 752 cases, 5 118 authenticated) the room guard skips
+      no comparison (measured with a probe tag), and the SERVFAIL guard fires only where the former audit
+      would have tagged `answer-header-differs`, which that corpus never did.
+      What remains: `C10_row3_compare` (with the two guards as premises) — under the guards the two
+      runs make the same calls with the same results (every call the plain run accepted fits the
+      signed room, since the whole plain result plus R fits; every call the plain run rejected with
+      `Truncation` is rejected by the signed run, which has less room), so the logs, hence the views,
+      coincide.  That two-run simulation over the writer's internals and query.rs (both directions:
+      "accepted in the big room and the result fits the small one ⇒ accepted in the small one" is
+      C04's `Sim`; "rejected with `Truncation` in the big room ⇒ rejected with `Truncation` in the small
+      one" and the insensitivity to the ARCOUNT / TSIG-slot / `limit` fields are not yet proved) is the
+      one missing piece of `C10_full`.
 
   Proved: (a)–(o).  Not proved, precisely:
   (1) `C10_row3` — the one obligation `C10_full` is reduced to (`C10_of_row3`): an authenticated request
@@ -1577,7 +1596,10 @@ theorem C10_audit_authenticated_nodata (cfg : Cfg) (cat : List Spec.Server.ZoneC
         r'.cursor ((req.getD 2 0).toNat / 8 % 16) = v →
       dm.rcode = (Spec.Server.verdictRcode v).1 % 16 → dm.aa = false → dm.tc = false → dm.an = [] → dm.ns = [] →
       (∀ x ∈ dm.ar, x.ty = 41 ∨ x.ty = 250) →
-      AnsweredNormally dm (decide (tr = .udp)) (Spec.ServerTsig.plainComparable cat cfg.payload req) plain) :
+      AnsweredNormally dm (decide (tr = .udp)) (Spec.ServerTsig.plainComparable cat cfg.payload req)
+        ((Spec.Tsig.canonName kn.labels).length + 10 + (Spec.Tsig.canonName (fieldsOf alg.labels rest).algName).length + 16 +
+        (Spec.Tsig.outputSizeOf (fieldsOf alg.labels rest).algName).getD 0 + 0)
+        (if decide (tr = .udp) then (Spec.Server.specScan cat cfg.payload req).limitUdp else 65535) plain) :
     (Spec.ServerTsig.audit hmSpec cat cfg.payload (specKeys cfg.keys) req now (tr = .udp)
       (toResp (handleMessage cfg tr now 65535 req)) plain).1 = [] := by
   obtain ⟨hrM, iq, ie, il⟩ := h.scanM
@@ -1700,6 +1722,9 @@ theorem C10_audit_authenticated_answer (cfg : Cfg) (hcfg : ServerSafety.CfgWF cf
     (b : Bytes) (hb : handleMessage cfg tr now 65535 req = .ok (some b)) (plain : Spec.ServerTsig.Resp)
     (hB : ∀ dm pb pd, Spec.specDecodeMsg b = some dm → plain = .bytes pb → Spec.specDecodeMsg pb = some pd →
       dm.tc = false → pd.tc = false → Spec.ServerTsig.plainComparable cat cfg.payload req = true →
+      pb.size + ((Spec.Tsig.canonName kn.labels).length + 10 + (Spec.Tsig.canonName (fieldsOf alg.labels rest).algName).length + 16 +
+        (Spec.Tsig.outputSizeOf (fieldsOf alg.labels rest).algName).getD 0 + 0) ≤
+        (if decide (tr = .udp) then (Spec.Server.specScan cat cfg.payload req).limitUdp else 65535) → (pd.rcode = 2 → dm.rcode = 2) →
       dm.rcode = pd.rcode ∧ dm.aa = pd.aa ∧
       Spec.ServerTsig.sameMultiset (dm.an.map Spec.ServerTsig.rrKey) (pd.an.map Spec.ServerTsig.rrKey) = true ∧
       Spec.ServerTsig.sameMultiset (dm.ns.map Spec.ServerTsig.rrKey) (pd.ns.map Spec.ServerTsig.rrKey) = true ∧
@@ -1796,9 +1821,12 @@ theorem C10_audit_authenticated_answer (cfg : Cfg) (hcfg : ServerSafety.CfgWF cf
   simp only [List.cons.injEq, and_true] at eo
   subst eo
   have e18 : Writer.XR_BADTIME = 18 := by decide
-  have hAN : AnsweredNormally dm (decide (tr = .udp)) (Spec.ServerTsig.plainComparable cat cfg.payload req) plain := by
+  have hAN : AnsweredNormally dm (decide (tr = .udp)) (Spec.ServerTsig.plainComparable cat cfg.payload req)
+      ((Spec.Tsig.canonName kn.labels).length + 10 + (Spec.Tsig.canonName (fieldsOf alg.labels rest).algName).length + 16 +
+        (Spec.Tsig.outputSizeOf (fieldsOf alg.labels rest).algName).getD 0 + 0)
+      (if decide (tr = .udp) then (Spec.Server.specScan cat cfg.payload req).limitUdp else 65535) plain := by
     intro pb pd hpl hpd
-    refine ⟨fun htc => ?_, fun htc hptc hcmp => hB dm pb pd hdm hpl hpd htc hptc hcmp⟩
+    refine ⟨fun htc => ?_, fun htc hptc hcmp hroom hrc2 => hB dm pb pd hdm hpl hpd htc hptc hcmp hroom hrc2⟩
     rw [g3] at htc
     obtain ⟨t1, t2, t3, t4⟩ := htcv htc
     rw [t2] at g4; rw [t3] at g5; rw [t4] at qA
@@ -1842,7 +1870,7 @@ theorem C10_audit_row2 (cfg : Cfg) (cat : List Spec.Server.ZoneCfg) (tr : Transp
         | none => .none)).1 = [] := by
   refine C10_audit_authenticated_nodata cfg cat tr now req hpay hp16 hk h hrow b hb _ ?_
   intro dm v hdm hvv hev hrc haa htc han hns har pb pd hplain hpd
-  refine ⟨fun hc => (by rw [htc] at hc; cases hc), fun _ hptc hcmp => ?_⟩
+  refine ⟨fun hc => (by rw [htc] at hc; cases hc), fun _ hptc hcmp _ _ => ?_⟩
   obtain ⟨_, iq, _, _⟩ := h.scanM
   rw [h.hcur] at hev
   obtain ⟨p, hstrip, pb', hpb', hall⟩ := plain_nodata_of_comparable cfg cat tr now req hpay hp16 hreq d h.hfind h.hpos
@@ -1884,10 +1912,9 @@ open QV.ServerScan in
     response with the decoded response to the request without its TSIG record, when neither is
     truncated and the audit's guard `plainComparable` holds — same RCODE and AA, answer and authority
     sections equal as multisets, own additional records a sub-multiset.
-    **This statement is false in two corner families** (see the header, "row 3"): over TCP a mandatory
-    record that fits 65535 octets only without the reserved TSIG gives SERVFAIL signed / NOERROR plain;
-    and optional additional records are dropped one by one, so with less room a *different* set of
-    them may fit, not a subset. -/
+    (With the audit's two further guards as premises — the plain response leaves room for the TSIG RR;
+    not "plain SERVFAIL, signed not" — without which the statement is false: see the header, third
+    correction of the oracle, F1–F3.) -/
 def C10_row3_compare : Prop :=
   ∀ (cfg : Cfg) (cat : List Spec.Server.ZoneCfg) (tr : Transport) (now : Nat) (req : Bytes),
     now < 2 ^ 48 → ServerSafety.CfgWF cfg → 512 ≤ cfg.payload → cfg.payload ≤ 65535 → req.size ≤ Rdata.USIZE_MAX →
@@ -1903,6 +1930,9 @@ def C10_row3_compare : Prop :=
             | none => .none) = .bytes pb →
           Spec.specDecodeMsg pb = some pd →
           dm.tc = false → pd.tc = false → Spec.ServerTsig.plainComparable cat cfg.payload req = true →
+      pb.size + ((Spec.Tsig.canonName kn.labels).length + 10 + (Spec.Tsig.canonName (fieldsOf alg.labels rest).algName).length + 16 +
+        (Spec.Tsig.outputSizeOf (fieldsOf alg.labels rest).algName).getD 0 + 0) ≤
+        (if decide (tr = .udp) then (Spec.Server.specScan cat cfg.payload req).limitUdp else 65535) → (pd.rcode = 2 → dm.rcode = 2) →
           dm.rcode = pd.rcode ∧ dm.aa = pd.aa ∧
           Spec.ServerTsig.sameMultiset (dm.an.map Spec.ServerTsig.rrKey) (pd.an.map Spec.ServerTsig.rrKey) = true ∧
           Spec.ServerTsig.sameMultiset (dm.ns.map Spec.ServerTsig.rrKey) (pd.ns.map Spec.ServerTsig.rrKey) = true ∧
@@ -1914,9 +1944,9 @@ open QV.ServerScan in
 theorem C10_row3_of_compare (hc : C10_row3_compare) : C10_row3 := by
   intro cfg cat tr now req hnow hcfg hpay hp16 hreq hk nowT t mw r' question d kn alg rest h hrow b hb
   exact C10_audit_authenticated_answer cfg hcfg cat tr now req hpay hp16 hk h hrow b hb _
-    (fun dm pb pd hdm hpl hpd htc hptc hcmp =>
+    (fun dm pb pd hdm hpl hpd htc hptc hcmp hroom hrc2 =>
       hc cfg cat tr now req hnow hcfg hpay hp16 hreq hk nowT t mw r' question d kn alg rest h hrow b hb dm pb pd
-        hdm hpl hpd htc hptc hcmp)
+        hdm hpl hpd htc hptc hcmp hroom hrc2)
 
 open QV.ServerScan in
 /-- **`C10_full` from row 3**: requests that do not reach a TSIG record (`C10_audit_pre_tsig`), rejected
